@@ -1,8 +1,14 @@
 import Nsq.Gen.ToolsRelay
 /-!
 Tie of the `Relay` models to apps/nsq_to_nsq, apps/nsq_to_http and go-nsq's `Consumer.handlerLoop`
-(regenerated leg): statement skeletons re-extracted from the current tree (log statements dropped) equal the
-ones the models were written against; the order facts below are read off the current skeleton.
+(regenerated leg). Two kinds of statement, labelled honestly (audit round 7, C31):
+* `…_eq : Nsq.Gen.ToolsRelay.X = expected_X := rfl` — the regenerated statement skeleton (log statements dropped) is
+  *textually* the hand-written constant `expected_X` the model was written against. A textual tie: any rewrite of the
+  function, harmless or not, breaks it (the behaviour is tied by the correspondence legs).
+* the facts at the end (`n2n_disable_after_publish`, `n2n_responder_decision`, `n2h_status_tests`, `handlerLoop_rule`,
+  `relays_run_with_library_default`) are statements about the **regenerated** definitions `Nsq.Gen.ToolsRelay.*` and are
+  `decide`d directly on them (until round 7 they were first rewritten into the hand-written constants, so they could
+  never hold or fail independently of the `_eq` theorems).
 -/
 namespace Nsq.Tie.ToolsRelay
 open Nsq.Gen.ToolsRelay
@@ -162,26 +168,26 @@ theorem n2n_disable_after_publish :
     pos "if err != nil" (n2nHandleMessage.drop (pos "switch ph.mode" n2nHandleMessage)) + pos "switch ph.mode" n2nHandleMessage
       < pos "m.DisableAutoResponse()" n2nHandleMessage
     ∧ pos "m.DisableAutoResponse()" n2nHandleMessage < n2nHandleMessage.length := by
-  rw [n2nHandleMessage_eq]; decide
+  decide
 
 /-- nsq_to_nsq responder: `success := t.Error == nil`, then `Finish` iff success else `Requeue(-1)` -/
 theorem n2n_responder_decision :
     (n2nResponder.drop (pos ".success := t.Error == nil" n2nResponder)).filter
         (fun s => s == ".if success" || s == "..msg.Finish()" || s == ".else" || s == "..msg.Requeue(-1)")
       = [".if success", "..msg.Finish()", ".else", "..msg.Requeue(-1)"] := by
-  rw [n2nResponder_eq]; decide
+  decide
 
 /-- the status-code tests of the two HTTP publishers -/
 theorem n2h_status_tests :
     "if resp.StatusCode < 200 || resp.StatusCode >= 300" ∈ n2hPost ∧ "if resp.StatusCode != 200" ∈ n2hGet := by
-  rw [n2hPost_eq, n2hGet_eq]; decide
+  decide
 
 /-- go-nsq: handler error → `Requeue(-1)`, otherwise `Finish()`, both only when auto-response is enabled -/
 theorem handlerLoop_rule :
     (handlerLoop.drop (pos ".err := handler.HandleMessage(message)" handlerLoop)).take 8 =
       [".err := handler.HandleMessage(message)", ".if err != nil", "..if !message.IsAutoResponseDisabled()",
        "...message.Requeue(-1)", "..continue", ".if !message.IsAutoResponseDisabled()", "..message.Finish()", "label exit"] := by
-  rw [handlerLoop_eq]; decide
+  decide
 
 end Nsq.Tie.ToolsRelay
 
